@@ -30,6 +30,12 @@ ASSUMPTIONS = [
     "besides the shipped cache, 7 other contents (well-formed pickles of the wrong shape, non-pickle bytes) are cut at "
     "a symbolic length as well; the module's `os` is a facade that answers access()/replace() for the cache path from "
     "the modelled file state",
+    "crash DURING the rewrite: import #1 (from a missing / empty / half / one-byte-short cache) dies at each file-system "
+    "event of the rebuild - inside a write after a symbolic number j of the bytes it was going to write, or just before an "
+    "os.replace/rename/remove call; modelled file system = files of the data directory as (bytes, length term), open() in "
+    "modes r/w/x, os.access/replace/rename/remove/unlink, os.path.exists/isfile; other ways of touching files (pathlib "
+    "methods, os.stat) are not modelled; import #2 must succeed with the right table and leave a complete cache which "
+    "import #3 reads without rebuilding; witnesses are replayed with a real os._exit inside the write",
 ]
 
 
@@ -92,6 +98,128 @@ class OutFile(io.BytesIO):
         if not self.closed:
             self.sink[self.path] = self.getvalue()
         super().close()
+
+
+class _Crash(BaseException):
+    """the process dies here (kill, power loss, full disk): nothing after this point of the import is executed"""
+
+
+class ModelFS:
+    """files of the package's data directory as (bytes, length) with the length possibly a z3 term; `open` in modes r/w/x
+    and the `os` calls the loader may use on them.  In crash mode the process dies at the e-th file-system event: inside a
+    write (a prefix of symbolic length of what was going to be written stays on disk) or just before an os call."""
+
+    def __init__(self, files, crash_at=None, plan=None):
+        self.files = dict(files)          # path -> (data, k)
+        self.crash_at, self.plan = crash_at, plan or []
+        self.events = []                  # recorded in the dry run: ("write", path, payload) / ("op", name, args)
+        self.log = []
+        self.dead = False                 # after the crash nothing the dying process still "does" reaches the disk
+
+    def _event(self):
+        return len(self.events)
+
+    def open(self, path, mode="r", *a, **kw):
+        path = str(path)
+        if self.dead:
+            raise _Crash()
+        if "x" in mode and path in self.files:
+            raise FileExistsError(17, "File exists", path)
+        if "w" in mode or "x" in mode or "a" in mode or "+" in mode:
+            idx = self._event()
+            self.events.append(["write", path, None])
+            self.files[path] = (b"", 0)          # created / truncated by open()
+            return _CrashFile(self, path, idx)
+        if path not in self.files:
+            raise FileNotFoundError(2, "No such file or directory", path)
+        data, k = self.files[path]
+        return SymFile(data, k, self.log)
+
+    def _op(self, name, *args):
+        if self.dead:
+            raise _Crash()                # (exception handlers and finally blocks do not run in a killed process)
+        idx = self._event()
+        self.events.append(["op", name, [str(x) for x in args]])
+        if self.crash_at == idx:
+            self.dead = True
+            raise _Crash()
+
+
+class _CrashFile(io.BytesIO):
+    def __init__(self, fs, path, idx):
+        super().__init__()
+        self.fs, self.path, self.idx = fs, path, idx
+
+    def write(self, b):
+        if self.fs.crash_at == self.idx:
+            payload = self.fs.plan[self.idx][2]
+            jz = z3.Int("j")
+            core.add(jz >= 0, jz <= len(payload))
+            core.register_input("j", jz, 0, len(payload))
+            self.fs.files[self.path] = (payload, SInt(jz))
+            self.fs.dead = True
+            raise _Crash()
+        return super().write(b)
+
+    def __enter__(self):
+        return self
+
+    def __exit__(self, *a):
+        self.close()
+        return False
+
+    def close(self):
+        if not self.closed and not self.fs.dead:
+            v = self.getvalue()
+            self.fs.files[self.path] = (v, len(v))
+            self.fs.events[self.idx][2] = v
+        super().close()
+
+
+class _OsModel:
+    """the module's `os` over a ModelFS (paths the model does not know go to the real os)"""
+
+    def __init__(self, real, fs, root):
+        self._real, self._fs, self._root = real, fs, str(root)
+        self.path = _OsPathModel(real.path, fs, self._root)
+
+    def _mine(self, p):
+        return str(p).startswith(self._root)
+
+    def access(self, path, mode):
+        return str(path) in self._fs.files if self._mine(path) else self._real.access(path, mode)
+
+    def replace(self, src, dst):
+        self._fs._op("replace", src, dst)
+        if str(src) not in self._fs.files:
+            raise FileNotFoundError(2, "No such file or directory", str(src))
+        self._fs.files[str(dst)] = self._fs.files.pop(str(src))
+
+    rename = replace
+
+    def remove(self, path):
+        self._fs._op("remove", path)
+        if str(path) not in self._fs.files:
+            raise FileNotFoundError(2, "No such file or directory", str(path))
+        del self._fs.files[str(path)]
+
+    unlink = remove
+
+    def __getattr__(self, name):
+        return getattr(self._real, name)
+
+
+class _OsPathModel:
+    def __init__(self, real, fs, root):
+        self._real, self._fs, self._root = real, fs, root
+
+    def exists(self, p):
+        return str(p) in self._fs.files if str(p).startswith(self._root) else self._real.exists(p)
+
+    isfile = exists
+
+    def __getattr__(self, name):
+        return getattr(self._real, name)
 
 
 def _table_sig(TZ):
@@ -178,31 +306,18 @@ def harness(use_hash, missing, variant="shipped"):
             core.register_input("k", kz, 0, N)
             k = SInt(kz)
 
-        def fake_open(path, mode="r", *a, **kw):
-            if "w" in mode or "a" in mode or "+" in mode:
-                return OutFile(sink, str(path))
-            if str(path) in sink:
-                return SymFile(sink[str(path)], len(sink[str(path)]), [])
-            if missing:
-                raise FileNotFoundError(2, "No such file or directory", str(path))
-            return SymFile(data, k, log)
-        TZ.open = fake_open
-        real_os = TZ.os
-        TZ.os = _OsFacade(real_os, TZ.CACHE_PATH, missing, sink)
+        cache = str(TZ.CACHE_PATH)
+        fs = ModelFS({} if missing else {cache: (data, k)})
+        fs.log = log
         cur_hash = S["hash"] if use_hash else None
         wit = {} if missing else {"k": k}
         label = "missing" if missing else None
         try:
-            TZ._load_offsets(TZ.CACHE_PATH, cur_hash)
+            _run_load(TZ, fs, cur_hash)
         except Exception as e:  # noqa: any escaping exception breaks the property
             return PathOutcome(False, wit, "raised:%s" % type(e).__name__,
                                {"exception": "%s: %s" % (type(e).__name__, str(e)[:120]), "reads": log[-2:]})
-        finally:
-            TZ.os = real_os
-            try:
-                del TZ.open
-            except AttributeError:
-                pass
+        sink = {p_: d_ for p_, (d_, k_) in fs.files.items() if fs.events and isinstance(k_, int) and k_ == len(d_)}
         same = _table_sig(TZ) == S["ref"]
         complete = variant == "shipped" and (
             not log or log[-1][0] == "full" and log[-1][1] == N and not any(x[0] != "full" for x in log))
@@ -215,24 +330,94 @@ def harness(use_hash, missing, variant="shipped"):
             if w is not None:
                 try:
                     obj = pickle.loads(w)
-                    sink2, log2 = {}, []
-
-                    def open2(path, mode="r", *a, **kw):
-                        if "w" in mode:
-                            return OutFile(sink2)
-                        return SymFile(w, len(w), log2)
-                    TZ.open = open2
-                    try:
-                        TZ._load_offsets(TZ.CACHE_PATH, cur_hash)
-                    finally:
-                        del TZ.open
-                    ok2 = (_table_sig(TZ) == S["ref"]) and not sink2 and len(obj) == 4
+                    fs2 = ModelFS(fs.files)
+                    _run_load(TZ, fs2, cur_hash)
+                    ok2 = (_table_sig(TZ) == S["ref"]) and not fs2.events and len(obj) == 4
                 except Exception as e:  # noqa
                     detail["second_load"] = "%s: %s" % (type(e).__name__, e)
             detail["rewritten_and_reloadable"] = ok2
             ok = ok and ok2
         lab = label or ("complete" if complete else "damaged:%s" % (log[-1][0] if log else "?"))
         return PathOutcome(bool(ok), wit, lab, detail)
+    return fn
+
+
+INITIAL = {"missing": None, "empty": 0, "half": -2, "one-short": -1}
+
+
+def _run_load(TZ, fs, cur_hash):
+    real_os = TZ.os
+    TZ.open = fs.open
+    TZ.os = _OsModel(real_os, fs, os.path.dirname(str(TZ.CACHE_PATH)))
+    try:
+        TZ._load_offsets(TZ.CACHE_PATH, cur_hash)
+    finally:
+        TZ.os = real_os
+        try:
+            del TZ.open
+        except AttributeError:
+            pass
+
+
+def _initial_files(S, init):
+    cache = str(S["TZ"].CACHE_PATH)
+    k = INITIAL[init]
+    if k is None:
+        return {}
+    N = len(S["data"])
+    return {cache: (S["data"], {0: 0, -2: N // 2, -1: N - 1}[k])}
+
+
+def dry_events(use_hash, init):
+    """the file-system events of an import that starts from `init` and is NOT interrupted"""
+    S = _setup()
+    fs = ModelFS(_initial_files(S, init))
+    _run_load(S["TZ"], fs, S["hash"] if use_hash else None)
+    return fs.events
+
+
+def harness_crash(use_hash, init, e, plan):
+    """import #1 starts from `init` and the process dies at file-system event e (inside a write: after a symbolic number
+    j of the bytes it was going to write); import #2 must succeed with the right table; after it the cache must be
+    complete: import #3 reads it without rebuilding."""
+    def fn():
+        S = _setup()
+        TZ = S["TZ"]
+        cur_hash = S["hash"] if use_hash else None
+        cache = str(TZ.CACHE_PATH)
+        fs = ModelFS(_initial_files(S, init), crash_at=e, plan=plan)
+        try:
+            _run_load(TZ, fs, cur_hash)
+            raise core.Abort()            # the event was not reached on this run
+        except _Crash:
+            pass
+        except Exception:  # noqa: the uninterrupted part is the subject of the other harness
+            raise core.Abort()
+        wit = {}
+        j = fs.files.get(plan[e][1], (None, None))[1] if plan[e][0] == "write" else None
+        if isinstance(j, SInt):
+            wit["j"] = j
+        left = sorted(os.path.basename(p) for p in fs.files)
+        fs2 = ModelFS(fs.files)
+        try:
+            _run_load(TZ, fs2, cur_hash)
+        except Exception as ex:  # noqa
+            return PathOutcome(False, wit, "import2-raised:%s" % type(ex).__name__,
+                               {"exception": "%s: %s" % (type(ex).__name__, str(ex)[:120]), "files_left_by_crash": left})
+        same = _table_sig(TZ) == S["ref"]
+        data3 = fs2.files.get(cache)
+        complete = False
+        if data3 is not None and (data3[1] == len(data3[0]) if isinstance(data3[1], int)
+                                  else branch(data3[1].z == len(data3[0]))):
+            fs3 = ModelFS(fs2.files)
+            try:
+                _run_load(TZ, fs3, cur_hash)
+                complete = not fs3.events and _table_sig(TZ) == S["ref"]
+            except Exception:  # noqa
+                complete = False
+        return PathOutcome(bool(same and complete), wit, "crash@%d:%s" % (e, plan[e][0]),
+                           {"same_table": same, "cache_complete_after_import2": complete, "files_left_by_crash": left,
+                            "files_after_import2": sorted(os.path.basename(p) for p in fs2.files)})
     return fn
 
 
@@ -248,10 +433,41 @@ def main(tier, seed, args):
                 res = core.explore(harness(use_hash, missing, variant), max_paths=500, warmup=False, want_samples=200)
                 res.variant = variant
                 results.append((use_hash, missing, res))
+    crash_results = []
+    for use_hash in (False, True):
+        for init in (["missing", "half"] if tier == "quick" else list(INITIAL)):
+            try:
+                plan = dry_events(use_hash, init)
+            except Exception as e:  # noqa
+                V.harness.append("dry run from %s failed: %s: %s" % (init, type(e).__name__, e))
+                continue
+            for e in range(len(plan)):
+                res = core.explore(harness_crash(use_hash, init, e, plan), max_paths=500, warmup=False, want_samples=50)
+                crash_results.append((use_hash, init, e, plan[e][0], os.path.basename(plan[e][1]) if plan[e][0] == "write" else plan[e][1], res))
     known = [k for k in runner.load_known() if k.get("property") == ID and k.get("status", "open") == "open"]
     nrep = 0
     classes = []
     replayed = reproduced = 0
+    crash_classes = []
+    for use_hash, init, e, kind, what, res in crash_results:
+        for i in res.inconclusive:
+            V.harness.append("inconclusive path (crash scenario): %s" % i["why"][:200])
+        for viol in res.violations[:3]:
+            nrep += 1
+            spec = {"crash": True, "use_hash": use_hash, "init": init, "event": e, "event_kind": kind,
+                    "j": viol["witness"].get("j"), "label": viol["label"], "info": viol["info"]}
+            ok, verdict, path = runner.replay_native(ID, spec, "%s_%d" % (tier, nrep))
+            replayed += 1
+            if ok is True:
+                reproduced += 1
+                V.violations.append((path, verdict.get("detail", "")))
+            elif ok is False:
+                V.harness.append("crash counterexample did not reproduce natively: %s" % verdict.get("detail"))
+            else:
+                V.harness.append("replay failed: %s" % str(verdict)[:200])
+        crash_classes.append({"BUILD_TZ_CACHE": use_hash, "initial_state": init, "event": e, "event_kind": kind, "what": what,
+                              "paths": res.paths, "completed": res.completed, "labels": res.labels,
+                              "violations": len(res.violations), "solver_calls": res.checks})
     for use_hash, missing, res in results:
         for i in res.inconclusive:
             V.harness.append("inconclusive path: %s" % i["why"][:200])
@@ -307,7 +523,26 @@ def main(tier, seed, args):
             V.harness.append("model-validation replay failed: %s" % str(verdict)[:200])
         else:
             os.remove(path)
-    completed = sum(r.completed for _, _, r in results)
+    # one class witness per crash scenario is replayed with a real kill (thorough: up to 4)
+    cjobs = []
+    for use_hash, init, e, kind, what, res in crash_results:
+        if res.violations:
+            continue
+        for smp in res.samples[:(1 if tier == "quick" else 4)]:
+            nrep += 1
+            cjobs.append(({"crash": True, "use_hash": use_hash, "init": init, "event": e, "event_kind": kind,
+                           "j": smp["witness"].get("j"), "label": "model-validation"}, "%s_cval%d" % (tier, nrep)))
+    with ThreadPoolExecutor(12) as ex:
+        outs = list(ex.map(lambda j: runner.replay_native(ID, j[0], j[1]), cjobs))
+    for ok, verdict, path in outs:
+        validated += 1
+        if ok is True:
+            V.violations.append((path, verdict.get("detail", "")))
+        elif ok is None:
+            V.harness.append("crash model-validation replay failed: %s" % str(verdict)[:200])
+        else:
+            os.remove(path)
+    completed = sum(r.completed for _, _, r in results) + sum(r[5].completed for r in crash_results)
     if completed == 0:
         V.harness.append("no path completed")
     cov = {
@@ -319,10 +554,16 @@ def main(tier, seed, args):
         "evaluations": completed, "distinct_nontrivial": completed,
         "rule": "one evaluation = one class of cut points (path) x BUILD_TZ_CACHE setting, plus the missing-file case",
         "samples": [c for c in classes],
+        "crash_during_rewrite": {
+            "explanation": "import #1 from {missing, empty, half, one byte short} dies at each file-system event of the "
+                           "rebuild (inside the write after a symbolic number j of bytes, or just before an os call); "
+                           "import #2 must succeed with the right table and leave a complete cache that import #3 reads "
+                           "without rebuilding", "scenarios": crash_classes},
         "cache_bytes": N, "functions_encoded": ENCODED, "counterexamples_replayed": replayed,
         "counterexamples_reproduced": reproduced, "class_witnesses_validated_on_real_files": validated,
-        "solver_queries": sum(r.checks for _, _, r in results),
-        "solver_time_s": round(sum(r.solver_s for _, _, r in results), 2), "exhaustive": False,
+        "solver_queries": sum(r.checks for _, _, r in results) + sum(r[5].checks for r in crash_results),
+        "solver_time_s": round(sum(r.solver_s for _, _, r in results) + sum(r[5].solver_s for r in crash_results), 2),
+        "exhaustive": False,
     }
     runner.write_evidence(ID, tier, seed, cov, ASSUMPTIONS, time.time() - t0, len(V.violations))
     print("%s %s: classes=%d solver_calls=%d wall=%.0fs" % (ID, tier, completed, cov["solver_queries"], time.time() - t0))
@@ -330,8 +571,118 @@ def main(tier, seed, args):
 
 
 # ------------------------------------------------------------------------------------------------ replay side
+_CRASH_DRIVER = r'''
+import sys, os, builtins
+TMP, ROOT, E, J = sys.argv[1], sys.argv[2], int(sys.argv[3]), int(sys.argv[4])
+sys.path.insert(0, TMP)
+state = {"n": 0}
+real_open = builtins.open
+class W:
+    def __init__(self, f, idx):
+        self.f, self.idx, self.n = f, idx, 0
+    def write(self, b):
+        if self.idx == E:
+            b = bytes(b)
+            room = J - self.n
+            if len(b) >= room:
+                self.f.write(b[:room]); self.f.flush(); os._exit(9)      # the process dies inside this write
+            self.n += len(b)
+        return self.f.write(b)
+    def __enter__(self):
+        return self
+    def __exit__(self, *a):
+        self.f.close()
+        return False
+    def __getattr__(self, name):
+        return getattr(self.f, name)
+def fake_open(path, mode="r", *a, **kw):
+    p = path if isinstance(path, int) else os.fspath(path)
+    if isinstance(p, str) and p.startswith(ROOT) and any(c in mode for c in "wxa+"):
+        idx = state["n"]; state["n"] += 1
+        return W(real_open(path, mode, *a, **kw), idx)
+    return real_open(path, mode, *a, **kw)
+builtins.open = fake_open
+def wrap(name):
+    real = getattr(os, name)
+    def f(*args, **kw):
+        if any(str(x).startswith(ROOT) for x in args):
+            idx = state["n"]; state["n"] += 1
+            if idx == E:
+                os._exit(9)                                              # ... or just before this call
+        return real(*args, **kw)
+    setattr(os, name, f)
+for nme in ("replace", "rename", "remove", "unlink"):
+    wrap(nme)
+import dateparser
+os._exit(0)
+'''
+
+
+def _native_crash(spec):
+    """import #1 is really killed (os._exit) at the event / byte the solver chose, in a scratch copy of the package"""
+    import shutil
+    import subprocess
+    import tempfile
+    tmp = tempfile.mkdtemp(prefix="c19_", dir="/tmp")
+    try:
+        shutil.copytree(os.path.join(runner.REPO, "dateparser"), os.path.join(tmp, "dateparser"),
+                        ignore=shutil.ignore_patterns("__pycache__"))
+        if os.path.isdir(os.path.join(runner.REPO, "dateparser_data")):
+            shutil.copytree(os.path.join(runner.REPO, "dateparser_data"), os.path.join(tmp, "dateparser_data"),
+                            ignore=shutil.ignore_patterns("__pycache__", "cldr_language_data", "supplementary_language_data"))
+        root = os.path.join(tmp, "dateparser", "data")
+        cache = os.path.join(root, "dateparser_tz_cache.pkl")
+        data = open(cache, "rb").read()
+        k = INITIAL[spec["init"]]
+        if k is None:
+            os.remove(cache)
+        else:
+            with open(cache, "wb") as f:
+                f.write(data[:{0: 0, -2: len(data) // 2, -1: len(data) - 1}[k]])
+        env = dict(os.environ, PYTHONDONTWRITEBYTECODE="1")
+        env.pop("BUILD_TZ_CACHE", None)
+        if spec.get("use_hash"):
+            env["BUILD_TZ_CACHE"] = "1"
+        drv = os.path.join(tmp, "crash_driver.py")
+        open(drv, "w").write(_CRASH_DRIVER)
+        j = spec.get("j")
+        p0 = subprocess.run([runner.PY, drv, tmp, root, str(spec["event"]), str(j if j is not None else 0)],
+                            capture_output=True, text=True, env=env, timeout=120)
+        what = "import #1 from a %s cache killed at file-system event %d (%s%s)" % (
+            spec["init"], spec["event"], spec.get("event_kind"), "" if j is None else ", after %d bytes" % j)
+        if p0.returncode != 9:
+            return {"violates": False, "unrealizable": True,
+                    "detail": "%s: the event was not reached natively (exit %d) %s" % (what, p0.returncode, p0.stderr[-200:])}
+        left = sorted(os.listdir(root))
+        code = ("import sys; sys.path.insert(0, %r); import dateparser, dateparser.timezone_parser as T; "
+                "assert T.__file__.startswith(%r), T.__file__; import regex; parts=[]; "
+                "ref=list(T.build_tz_offsets(parts)); "
+                "sig=lambda L:[(n,i['regex'].pattern,int(i['regex'].flags),i['offset']) for n,i in L]; "
+                "assert sig(T._tz_offsets)==sig(ref), 'table differs'; "
+                "assert T._search_regex.pattern=='|'.join(parts) and T._search_regex_ignorecase.pattern=='|'.join(parts); "
+                "print('OK')" % (tmp, tmp))
+        p1 = subprocess.run([runner.PY, "-c", code], capture_output=True, text=True, env=env, timeout=120)
+        if p1.returncode != 0:
+            return {"violates": True, "detail": "%s; files left: %r; import #2 failed: %s" % (
+                what, left, (p1.stderr.strip().splitlines() or ["?"])[-1][:200])}
+        complete = False
+        if os.path.exists(cache):
+            try:
+                complete = len(pickle.loads(open(cache, "rb").read())) == 4
+            except Exception:
+                complete = False
+        if not complete:
+            return {"violates": True, "detail": "%s; files left: %r; import #2 succeeded but the cache on disk is still not a "
+                                                "complete table (files now: %r): the damage persists" % (what, left, sorted(os.listdir(root)))}
+        return {"violates": False, "detail": "%s; import #2 ok and cache complete" % what}
+    finally:
+        shutil.rmtree(tmp, ignore_errors=True)
+
+
 def native_check(spec):
     """real truncated file in a scratch copy of the package; `python -c 'import dateparser'` twice"""
+    if spec.get("crash"):
+        return _native_crash(spec)
     import shutil
     import subprocess
     import tempfile
